@@ -56,6 +56,11 @@ class ProgramRunner:
             else:
                 r.outside_write(copy.deepcopy(init), bump=False)
         self.objs = {}
+        if any("new" in st for t in self.prog["threads"] for st in t):
+            # objects constructed inside the threads: the file's lock must not be registered yet (isolation between
+            # the runs of one program; the registry itself is the library's and is only emptied of this entry)
+            for r in self.resources:
+                getattr(self.cls, "_locks", {}).pop(getattr(r, "path", None), None)
         for hid, res in self.prog["roots"]:
             self.objs[hid] = self.resources[res].new_handle()
         for st in self.prog.get("pre", []):
@@ -77,11 +82,18 @@ class ProgramRunner:
         hist = []
         objs = self.objs
         opstart = self.opstart = {}
+        newspan = self.newspan = {}  # thread -> (points before, points after) its constructor step
         current = {}  # thread ident -> (thread index, op index) of the client call in progress
 
         def body(ti, steps):
             def run():
                 for si, st in enumerate(steps):
+                    if "new" in st:
+                        # the thread constructs its own object on the resource (not a collection operation)
+                        n0 = sched.SCHED.nsteps[ti] if ti < len(sched.SCHED.nsteps) else 0
+                        objs[st["new"]] = self.resources[st["res"]].new_handle()
+                        newspan[ti] = (n0, sched.SCHED.nsteps[ti] if ti < len(sched.SCHED.nsteps) else n0)
+                        continue
                     hist.append(("call", next(clock), ti, si))
                     current[threading.get_ident()] = (ti, si)
                     opstart[(ti, si)] = sched.SCHED.nsteps[ti] if ti < len(sched.SCHED.nsteps) else 0
@@ -162,6 +174,10 @@ def _model_for(prog, info, inits):
             ms.retain(st["retain"], st["h"], st.get("path", []))
         elif "op" in st:
             ms.apply_op(st)
+    for t in prog["threads"]:
+        for st in t:
+            if "new" in st:
+                ms.add_root(st["new"], st["res"])
     if prog.get("buffered") is not None:
         ms.enter({"enter": "backend", "cap": prog["buffered"].get("cap")})
     return ms
@@ -384,6 +400,39 @@ def explore(prog, runner, rng, tier, sig_base, check_extra=None, budget_runs=Non
                         if late():
                             break
                         res = one(sched.PriorityPolicy(order, [(a, bnd + 1), (b, k)]))
+                        if res["status"] in ("watchdog", "overrun"):
+                            break
+    if "ctor" in policies:
+        # Threads that construct their own object ("new" step): thread A is delayed at every point k1 *inside its
+        # constructor*, thread B then runs to its k-th point (k swept), A completes, B completes:
+        #     A: half a constructor | B: constructor + partial op | A: rest | B: rest
+        for a in range(nthreads):
+            if not any("new" in st for st in prog["threads"][a]):
+                continue
+            for b in range(nthreads):
+                if b == a:
+                    continue
+                order = [a, b] + [t for t in range(nthreads) if t not in (a, b)]
+                res = one(sched.PriorityPolicy(order, [(a, 10**9)]), record_sites=True)
+                span = runner.newspan.get(a)
+                if res["status"] != "ok" or not span:
+                    continue
+                k1s = [k for k in select_ks(res["site_seq"][a]) if span[0] < k <= span[1]]
+                if tier == "quick":
+                    if (a, b) != (0, 1):
+                        continue  # one ordered pair of threads at the quick tier
+                for k1 in k1s:
+                    res = one(sched.PriorityPolicy(order, [(a, k1), (b, 10**9)]), record_sites=True)
+                    if res["status"] != "ok":
+                        continue
+                    ks = select_ks(res["site_seq"][b])
+                    if tier == "quick":
+                        ks = ks[:: 2]
+                    out["ctor_points"] = out.get("ctor_points", 0) + len(ks)
+                    for k in ks:
+                        if late():
+                            break
+                        res = one(sched.PriorityPolicy(order, [(a, k1), (b, k)]))
                         if res["status"] in ("watchdog", "overrun"):
                             break
     if "two_delay" in policies:
